@@ -10,13 +10,21 @@
     slot the iterator stands on) are covered: they are the re-read branches of forward() / backward() in the model.
           every visited key is the key of an element that was in the tree at some configuration of the iteration
                                                                                            [C19_feldman_iter_visited_was_in]
-          an element that is in the tree with its key throughout is visited          [C19_feldman_iter_complete_elem]
-    NOT proved here: the trace-level form of erase_at exactness (state-level halves: Properties_C19.v (3), (4)); that an
-    element is visited AT MOST a bounded number of times; "keys of existing items never change" (true of the model, not part
-    of FeldmanStepRel.Rel2: (b3) takes the constancy of the key as part of "the element is in the tree"). *)
+          an element that is in the tree throughout is visited (the event carries its key) [C19_feldman_iter_complete_elem]
+          (keys of existing items never change along an execution                                 [C19_feldman_keys_stable])
+      (c) do_erase_at( iterator ), every schedule: an "erased 1" event of thread t (erase_at answered true) means that a step of
+          t itself, after the last visit of t and before the event, cleared the unflagged slot of a reachable array node that
+          held exactly the visited element x - every other position of the tree kept its content, x is at no position
+          afterwards, exactly the hash of x left the set; "erased 0" (false) means that in some configuration after that visit
+          x was at no position of the tree (removed or replaced by somebody else)            [C19_feldman_erase_at_trace]
+          Both paths of do_erase_at are covered (slot CAS; unlink fall-back after the slot was expanded).
+    NOT proved here: that a removed element never comes back (so "removed once" is: one removing step of this call is
+    exhibited; a second removal of x by anybody would need x to be re-inserted, which the set operations never do with an
+    existing item - not stated); that an element is visited AT MOST a bounded number of times; disposal (the model's retire
+    is the two accesses of the retired array, no scan). *)
 From Coq Require Import ZArith NArith List String.
-From LV Require Import Base.Conc Base.Events Model.Feldman Model.FeldmanIter Proofs.FeldmanStepThm.
-From LV Require Import Proofs.FeldmanIterTraceThm Proofs.FeldmanIterTraceEx.
+From LV Require Import Base.Conc Base.Events Model.Feldman Model.FeldmanIter Proofs.FeldmanStepThm Proofs.FeldmanIterThm Proofs.FeldmanIterTraceInv.
+From LV Require Import Proofs.FeldmanIterTraceThm Proofs.FeldmanIterTraceKeys Proofs.FeldmanIterTraceEx.
 Import ListNotations.
 
 (** [steps c0 cs c]: an execution from [c0] to [c]; [cs] lists all its configurations in order.
@@ -64,22 +72,68 @@ Proof.
 Qed.
 Print Assumptions C19_feldman_iter_visited_was_in.
 
-(** (b3) completeness for an element: an element that is in the tree, with its key, in every configuration during the
-    iteration is visited (the "visit" event carries its key) *)
+(** (b3) completeness for an element: an element that is in the tree in every configuration during the iteration is
+    visited, and the "visit" event carries its key *)
 Theorem C19_feldman_iter_complete_elem :
   forall (hbits abits W : nat) (hs : list N), 0 < hbits -> 0 < abits ->
   forall (fuel : nat) (ths : list (list (list Z))) cs c,
     steps (FeldmanIter.init_cfgI hbits abits W hs fuel ths) cs c ->
     forall t tr0 mid, iteration c t tr0 mid ->
-      forall x kx,
-        (forall c', during cs tr0 mid c' -> (exists a i, data_at (Conc.shared c') a i x) /\ ikey (Conc.shared c') x = kx) ->
-        In (t, FeldmanIter.ev_visit kx) mid.
+      forall x, (forall c', during cs tr0 mid c' -> exists a i, data_at (Conc.shared c') a i x) ->
+        In (t, FeldmanIter.ev_visit (ikey (Conc.shared c) x)) mid.
 Proof.
-  intros hbits abits W hs Hh Ha fuel ths cs c Hst t tr0 mid (code & k & rest & Hc & Etr & Hmid) x kx Hx.
-  apply (@feldman_iter_complete_elem hbits abits W hs Hh Ha fuel ths cs c Hst t code k tr0 mid rest Hc Etr Hmid x kx).
+  intros hbits abits W hs Hh Ha fuel ths cs c Hst t tr0 mid (code & k & rest & Hc & Etr & Hmid) x Hx.
+  apply (@feldman_iter_complete_elem_keys hbits abits W hs Hh Ha fuel ths cs c Hst t code k tr0 mid rest Hc Etr Hmid x).
   intros c' H1 H2 H3. apply Hx. split; [exact H1|]. split; [exact H2|exact H3].
 Qed.
 Print Assumptions C19_feldman_iter_complete_elem.
+
+(** the key of an existing item is the same in every later configuration of an execution; item ids only grow *)
+Theorem C19_feldman_keys_stable :
+  forall (hbits abits W : nat) (hs : list N) (fuel : nat) (ths : list (list (list Z))) cs c,
+    steps (FeldmanIter.init_cfgI hbits abits W hs fuel ths) cs c ->
+    forall c', In c' cs ->
+      nitem (Conc.shared c') <= nitem (Conc.shared c) /\
+      forall x, x <= nitem (Conc.shared c') -> ikey (Conc.shared c) x = ikey (Conc.shared c') x.
+Proof. intros hbits abits W hs fuel ths cs c Hst c' Hin. exact (@feldman_iter_keys hbits abits W hs fuel ths cs c Hst c' Hin). Qed.
+Print Assumptions C19_feldman_keys_stable.
+
+(** (c) do_erase_at at trace level.  [consecutive cs c1 c2]: [c2] follows [c1] in the execution *)
+Definition consecutive (cs : list (Conc.config G V ev)) (c1 c2 : Conc.config G V ev) : Prop :=
+  exists l1 l2, cs = l1 ++ c1 :: c2 :: l2.
+
+Theorem C19_feldman_erase_at_trace :
+  forall (hbits abits W : nat) (hs : list N), 0 < hbits -> 0 < abits ->
+  forall (fuel : nat) (ths : list (list (list Z))) cs c,
+    steps (FeldmanIter.init_cfgI hbits abits W hs fuel ths) cs c ->
+    forall t e b, nth_error (Conc.trace c) e = Some (t, FeldmanIter.ev_erased b) ->
+    exists v k x,
+      v < e /\ nth_error (Conc.trace c) v = Some (t, FeldmanIter.ev_visit k) /\
+      (forall j k', v < j -> j < e -> nth_error (Conc.trace c) j <> Some (t, FeldmanIter.ev_visit k')) /\
+      x <> 0 /\ (exists c', In c' cs /\ (exists a i, data_at (Conc.shared c') a i x) /\ ikey (Conc.shared c') x = k) /\
+      (b = true ->
+         exists c1 c2, consecutive cs c1 c2 /\ (exists es, Conc.trace c2 = Conc.trace c1 ++ Conc.tag t es) /\
+           v < List.length (Conc.trace c1) /\ List.length (Conc.trace c1) < e /\
+           (exists a i, arr (Conc.shared c1) a i = mkSlot x 0 /\ reach_arr (Conc.shared c1) a /\
+                        Conc.shared c2 = erase_at_state (Conc.shared c1) a i) /\
+           (forall a' i' y, data_at (Conc.shared c2) a' i' y <->
+                            (data_at (Conc.shared c1) a' i' y /\ arr (Conc.shared c1) a' i' <> mkSlot x 0)) /\
+           (forall a' i', ~ data_at (Conc.shared c2) a' i' x) /\
+           (forall h, present hs (Conc.shared c2) h <->
+                      (present hs (Conc.shared c1) h /\ h <> Feldman.hash hs (ikey (Conc.shared c1) x)))) /\
+      (b = false ->
+         exists c', In c' cs /\ v < List.length (Conc.trace c') /\ forall a i, ~ data_at (Conc.shared c') a i x).
+Proof.
+  intros hbits abits W hs Hh Ha fuel ths cs c Hst t e b E.
+  destruct (@feldman_iter_erase_at hbits abits W hs Hh Ha fuel ths cs c Hst t e b E)
+    as (v & k & x & H1 & H2 & H3 & Hx & H4 & H5 & H6).
+  exists v, k, x. split; [exact H1|]. split; [exact H2|]. split; [exact H3|]. split; [exact Hx|]. split; [exact H4|]. split; [|exact H6].
+  intros Hb. destruct (H5 Hb) as (c1 & c2 & R & R3 & R4). exists c1, c2.
+  pose proof (@removal_exact hbits abits W hs Hh Ha fuel ths cs c t c1 c2 x Hst R Hx) as (X1 & X2 & X3).
+  destruct R as (R1 & R2 & R5).
+  split; [exact R1|]. split; [exact R2|]. split; [exact R3|]. split; [exact R4|]. split; [exact R5|]. split; [exact X1|]. split; [exact X2|exact X3].
+Qed.
+Print Assumptions C19_feldman_erase_at_trace.
 
 (** executions are exactly what [Conc.reach] relates *)
 Theorem C19_steps_reach :
@@ -114,3 +168,20 @@ Proof.
   split; [vm_compute; reflexivity|]. split; [vm_compute; reflexivity|].
   vm_compute. tauto.
 Qed.
+
+(** non-vacuity of (c), answer true through the unlink fall-back: thread 0 is stopped after the visit of key 0, thread 1 inserts
+    key 1 and thereby expands the slot, then do_erase_at finds the slot flagged and removes the element through unlink *)
+Example C19_feldman_erase_at_true_nonvacuous :
+  let c0 := FeldmanIter.init_cfgI 4 2 32 [5; 21; 37; 2]%N 60 [[[1;0];[1;3];[20;0]]; [[1;1]]]%Z in
+  let r := exec (repeat 0 41 ++ repeat 1 80 ++ repeat 0 300)%nat c0 [c0] in
+  steps c0 (fst r) (snd r) /\ nth_error (Conc.trace (snd r)) 85 = Some (0, FeldmanIter.ev_erased true) /\
+  nth_error (Conc.trace (snd r)) 45 = Some (0, FeldmanIter.ev_visit 0) /\ arr (Conc.shared (snd r)) 0 5 = mkSlot 1 2.
+Proof. cbv zeta. split; [apply exec_steps; constructor|]. vm_compute. repeat split. Qed.
+
+(** ... answer false: thread 1 erases key 0 between the visit and do_erase_at *)
+Example C19_feldman_erase_at_false_nonvacuous :
+  let c0 := FeldmanIter.init_cfgI 4 2 32 [5; 21; 37; 2]%N 60 [[[1;0];[1;3];[20;0]]; [[7;0]]]%Z in
+  let r := exec (repeat 0 41 ++ repeat 1 80 ++ repeat 0 300)%nat c0 [c0] in
+  steps c0 (fst r) (snd r) /\ nth_error (Conc.trace (snd r)) 64 = Some (0, FeldmanIter.ev_erased false) /\
+  nth_error (Conc.trace (snd r)) 45 = Some (0, FeldmanIter.ev_visit 0).
+Proof. cbv zeta. split; [apply exec_steps; constructor|]. vm_compute. repeat split. Qed.
